@@ -7,6 +7,7 @@ from math import gcd
 
 from . import core
 from .core import BITS, F3, I8, R11, is_signed, promoted, tmax, tmin
+from .core import ffloat as _ffloat
 
 # factor grid of the property's quantifier (N, D): factor = N/D
 FACTORS = [(1, 1), (2, 1), (3, 1), (10, 1), (1000, 1), (1, 2), (1, 3), (1, 1000), (3, 2), (2, 3),
@@ -240,7 +241,7 @@ def confirm(v):
                 while Fraction(2) ** (e - 1) > mag:
                     e -= 1
                 ulp = Fraction(2) ** (e - digits)
-                return abs(r - exact) > 3 * ulp, "py error %.3f ulp" % float(abs(r - exact) / ulp)
+                return abs(r - exact) > 3 * ulp, "py error %.3f ulp" % _ffloat(abs(r - exact) / ulp)
             return v["gotbits"] != v["ybits"], "py bit compare"
         return False, "unexpected kind for int-fp"
     c = common(s, t)
